@@ -217,7 +217,10 @@ AfterEvery(cfg, o, o1, ln) ==
       \* C08 / C03: an event is signalled complete although no bus has begun to process it yet (its handlers are still to come)
       premature == {W("C08.premature", e, "", "", 0, "") :
                       e \in {x \in 1..Len(o1.snap) : fc1[x] # <<>> /\ (x > Len(o.fc) \/ o.fc[x] = <<>>) /\ ~\E p \in o1.procB : p[2] = x}}
-  IN AddW(o3, C08W(o, o2) \cup C13W(cfg, o, o2) \cup C09StructW(o, o2, changed) \cup C10ChildW(o, o2) \cup premature)
+      \* C08 / C03: the completion signal is raised while a handler result of the event is still pending or started
+      sigEarly == {W("C08.signal_early", e, "", "", 0, "") :
+                     e \in {x \in changed : o1.snap[x].sig /\ ~ResDone(o1.snap[x]) /\ (x > Len(o.snap) \/ ~o.snap[x].sig)}}
+  IN AddW(o3, C08W(o, o2) \cup C13W(cfg, o, o2) \cup C09StructW(o, o2, changed) \cup C10ChildW(o, o2) \cup premature \cup sigEarly)
 
 \* ------------------------------------------------------------------------
 \* Disp
@@ -275,6 +278,9 @@ StepDisp(cfg, o, ln) ==
 \* ------------------------------------------------------------------------
 \* x may start while y is open only if ... (C06); ex jumps the queue of y's awaited child only if ... (C05)
 SiblingsPar(cfg, x, y) == x.e = y.e /\ x.b = y.b /\ IsParallel(cfg, x.b)
+\* everything an awaiting handler is waiting for: the awaited event's tree, and the trees of the other events it awaits at the same time
+\* through helper tasks (asyncio.gather and the like; field `also`)
+AwSub(o, z) == Sub(o, z.aw) \cup UNION {Sub(o, e2) : e2 \in z.also}
 \* the open handlers a handler runs under: itself, the awaiting handler whose inline drain started it, and so on upwards
 RECURSIVE Starters(_, _, _)
 Starters(o, u, seen) ==
@@ -283,13 +289,17 @@ Starters(o, u, seen) ==
 \* x and y run under two different handlers of the same event on a parallel_handlers bus (each of them draining inline): finding G9
 UnderParSiblings(cfg, o, x, y) ==
   \E z1 \in Starters(o, x, {}) : \E z2 \in Starters(o, y, {}) : z1.act # z2.act /\ SiblingsPar(cfg, z1, z2)
+\* x and y were both started by inline drains running under one and the same handler at the same time (its helper tasks - asyncio.gather,
+\* TaskGroup - each run the drain): finding G9 as well
+UnderSameDrainer(o, x, y) ==
+  x.by = "in" /\ y.by = "in" /\ y.aw = 0 /\ \E z \in Starters(o, x, {}) \ {x} : z \in Starters(o, y, {}) \ {y}
 Excused6(cfg, o, x, y) ==
   \/ y.aw # 0
   \/ SiblingsPar(cfg, x, y)
   \/ IsParallel(cfg, y.b) /\ \E z \in o.open : z.act # y.act /\ z.e = y.e /\ z.b = y.b /\ z.aw # 0
 
 StepEnter(cfg, o, ln) ==
-  LET x == [act |-> ln.act, b |-> ln.b, e |-> ln.e, h |-> ln.h, aw |-> 0, awim |-> FALSE, fresh |-> {}, by |-> ln.byk, bya |-> ln.bya, t0 |-> ln.t,
+  LET x == [act |-> ln.act, b |-> ln.b, e |-> ln.e, h |-> ln.h, aw |-> 0, also |-> {}, awim |-> FALSE, fresh |-> {}, by |-> ln.byk, bya |-> ln.bya, t0 |-> ln.t,
             dl |-> IF ln.tmo < 0 THEN -1 ELSE ln.t + ln.tmo, sync |-> ln.sync,
             enc |-> {y.act : y \in {z \in o.open : z.aw # 0}}]
       key == <<ln.b, ln.e, ln.h>>
@@ -299,7 +309,7 @@ StepEnter(cfg, o, ln) ==
       w1 == IF key \in o.runs THEN {W("C01.twice", ln.e, ln.b, ln.h, ln.act, ln.byk)} ELSE {}
       \* C02 fifo: everything accepted earlier on this bus (and having a scenario handler here) has started,
       \* unless this event is (a descendant of) an event some open handler is awaiting
-      jump == \E y \in o.open : y.aw # 0 /\ ln.e \in Sub(o, y.aw)
+      jump == \E y \in o.open : y.aw # 0 /\ ln.e \in AwSub(o, y)
       pos == IF InSeq(ln.e, o.acc[ln.b]) THEN FirstIdx(o.acc[ln.b], ln.e) ELSE 0
       earlier == IF pos = 0 THEN {} ELSE {o.acc[ln.b][i] : i \in 1..(pos - 1)}
       w2a == IF first /\ ~jump /\ ln.b \notin o.stopped
@@ -310,19 +320,19 @@ StepEnter(cfg, o, ln) ==
       w2n == IF pos = 0 THEN {W("C14.not_accepted", ln.e, ln.b, ln.h, ln.act, "handler entered for an event never accepted on this bus")} ELSE {}
       \* C02 serial: on a serial bus nothing else of this bus is running un-suspended
       w2b == IF IsParallel(cfg, ln.b) THEN {}
-             ELSE {W("C02.serial", ln.e, ln.b, ln.h, y.act, IF UnderParSiblings(cfg, o, x, y) THEN "parsib" ELSE ln.byk) : y \in {z \in o.open : z.b = ln.b /\ z.aw = 0}}
+             ELSE {W("C02.serial", ln.e, ln.b, ln.h, y.act, IF UnderParSiblings(cfg, o, x, y) \/ UnderSameDrainer(o, x, y) THEN "parsib" ELSE ln.byk) : y \in {z \in o.open : z.b = ln.b /\ z.aw = 0}}
       \* C05: between await-begin and the child's completion only the child and its descendants run
       takeKind == IF \E tk \in o.take : tk[1] = ln.b /\ tk[2] = ln.e THEN (CHOOSE tk \in o.take : tk[1] = ln.b /\ tk[2] = ln.e)[3] ELSE "work"
       w5 == {W("C05.unrelated", ln.e, ln.b, ln.h, y.aw, IF ln.byk # "in" THEN ln.byk ELSE IF takeKind = "done" THEN "in_after_done"
                                                          ELSE IF takeKind = "nowork" THEN "in_nothing_left" ELSE "in") :
-               y \in {z \in o.open : z.aw # 0 /\ ~Done(o, z.aw) /\ ln.e \notin Sub(o, z.aw) /\ ~SiblingsPar(cfg, x, z)
-                                   /\ ~\E z2 \in o.open : z2.act # z.act /\ SiblingsPar(cfg, z2, z) /\ z2.aw # 0 /\ ln.e \in Sub(o, z2.aw)}}
+               y \in {z \in o.open : z.aw # 0 /\ ~Done(o, z.aw) /\ ln.e \notin AwSub(o, z) /\ ~SiblingsPar(cfg, x, z)
+                                   /\ ~\E z2 \in o.open : z2.act # z.act /\ SiblingsPar(cfg, z2, z) /\ z2.aw # 0 /\ ln.e \in AwSub(o, z2)}}
       \* C05, second half of the interval: an await that returned too early does not end the child's priority - until the child is done nothing
       \* unrelated may start either
       w5e == {W("C05.unrelated", ln.e, ln.b, ln.h, ob.e, "early_" \o ob.why) :
                 ob \in {z \in o.early : ~Done(o, z.e) /\ ln.e \notin Sub(o, z.e)}}
       \* C06: cross-bus mutual exclusion
-      w6 == {W("C06.overlap", ln.e, ln.b, ln.h, y.act, IF UnderParSiblings(cfg, o, x, y) THEN "parsib" ELSE ln.byk) : y \in {z \in o.open : ~Excused6(cfg, o, x, z)}}
+      w6 == {W("C06.overlap", ln.e, ln.b, ln.h, y.act, IF UnderParSiblings(cfg, o, x, y) \/ UnderSameDrainer(o, x, y) THEN "parsib" ELSE ln.byk) : y \in {z \in o.open : ~Excused6(cfg, o, x, z)}}
       \* C09: event.event_bus inside a handler is the bus running it
       w9 == IF ln.rb # ln.b THEN {W("C09.event_bus", ln.e, ln.b, ln.h, ln.act, IF Len(o.snap[ln.e].path) > 1 /\ ln.rb = Last(o.snap[ln.e].path) THEN "lastpath" ELSE ln.rb)} ELSE {}
       \* C16: no handler of a stopped bus starts after stop() returned
@@ -359,7 +369,7 @@ ImmediateAwait(o, act, e) == IsOpen(o, act) /\ e \in OpenAct(o, act).fresh
 StepAwB(cfg, o, ln) ==
   IF ~IsOpen(o, ln.act) THEN o
   ELSE LET x == OpenAct(o, ln.act) IN
-       AddW([o EXCEPT !.open = (@ \ {x}) \cup {[x EXCEPT !.aw = ln.e, !.awim = ImmediateAwait(o, ln.act, ln.e)]}], LateW(o, ln.act, ln.t, "await"))
+       AddW([o EXCEPT !.open = (@ \ {x}) \cup {[x EXCEPT !.aw = ln.e, !.also = IF "also" \in DOMAIN ln THEN Range(ln.also) ELSE {}, !.awim = ImmediateAwait(o, ln.act, ln.e) /\ ~("also" \in DOMAIN ln)]}], LateW(o, ln.act, ln.t, "await"))
 
 \* the events of the awaited tree that are not done, and why (diagnostics / classification of recorded findings)
 NotDoneAll(o, c) == {d \in Sub(o, c) : ~Done(o, d)}
@@ -375,7 +385,7 @@ WhyNotDone(o, d) ==
 StepAwE(cfg, o, ln) ==
   IF ~IsOpen(o, ln.act) THEN o
   ELSE LET x == OpenAct(o, ln.act)
-           o1 == Bump([o EXCEPT !.open = (@ \ {x}) \cup {[x EXCEPT !.aw = 0, !.awim = FALSE, !.fresh = {}]}], "awE")
+           o1 == Bump([o EXCEPT !.open = (@ \ {x}) \cup {[x EXCEPT !.aw = 0, !.also = {}, !.awim = FALSE, !.fresh = {}]}], "awE")
            nd == NotDone(o, ln.e)
            w == IF ln.canc THEN {}
                 ELSE (IF ~ln.same THEN {W("C04.identity", ln.e, x.b, x.h, x.act, "")} ELSE {})
@@ -447,14 +457,15 @@ FilterOK(f, n) == CASE f = "any" -> TRUE [] f = "none" -> FALSE [] f = "odd" -> 
                     [] f = "big" -> n >= 2 [] OTHER -> FALSE
 StepExpB(cfg, o, ln) ==
   [o EXCEPT !.exps = @ \cup {[x |-> ln.x, d |-> ln.d, b |-> ln.b, ty |-> ln.ty, inc |-> ln.inc, exc |-> ln.exc, t0 |-> ln.t,
-                              tmo |-> ln.tmo, cands |-> <<>>, done |-> FALSE]}]
+                              tmo |-> ln.tmo, cands |-> <<>>, done |-> FALSE,
+                              sub |-> IF "sub" \in DOMAIN ln THEN ln.sub ELSE TRUE]}]     \* (FALSE: cancelled before its first step, never subscribes)
 StepExpE(cfg, o, ln) ==
   LET X == {x \in o.exps : x.x = ln.x}
       x == CHOOSE y \in X : TRUE
       o1 == Bump([o EXCEPT !.exps = (@ \ X) \cup {[x EXCEPT !.done = TRUE]}], "expE")
       m == SelectSeq(x.cands, LAMBDA c : x.inc # "boom" /\ FilterOK(x.inc, c[2]) /\ ~FilterOK(x.exc, c[2]))
       w == IF X = {} THEN {}
-           ELSE (IF o.reg[ln.b] # Cardinality({h \in Handlers(cfg) : h.bus = ln.b /\ (~IsLate(h) \/ h.id \in o.lreg)}) + Cardinality({y \in o.exps : y.b = ln.b /\ ~y.done /\ y.x # ln.x}) THEN {W("C18.subscription_leak", ln.e, ln.b, "", ln.x, ln.err)} ELSE {})
+           ELSE (IF o.reg[ln.b] # Cardinality({h \in Handlers(cfg) : h.bus = ln.b /\ (~IsLate(h) \/ h.id \in o.lreg)}) + Cardinality({y \in o.exps : y.b = ln.b /\ ~y.done /\ y.sub /\ y.x # ln.x}) THEN {W("C18.subscription_leak", ln.e, ln.b, "", ln.x, ln.err)} ELSE {})
              \cup (IF ln.e # 0 /\ (m = <<>> \/ m[1][1] # ln.e) THEN {W("C18.wrong_event", ln.e, ln.b, "", ln.x, "")} ELSE {})
              \cup (IF ln.e = 0 /\ ln.err = "Timeout" /\ m # <<>> /\ x.tmo >= 0 /\ m[1][3] < x.t0 + x.tmo
                    THEN {W("C18.missed", m[1][1], ln.b, "", ln.x, "")} ELSE {})
@@ -580,7 +591,10 @@ StepEnd(cfg, o, ln) ==
                         FirstOk(b) == CHOOSE k \in DOMAIN o.disp : o.disp[k].e = e /\ o.disp[k].b = b /\ o.disp[k].out = "ok"
                                           /\ \A j \in DOMAIN o.disp : (o.disp[j].e = e /\ o.disp[j].b = b /\ o.disp[j].out = "ok") => k <= j
                         order == SetToSortSeq(got, LAMBDA x, y : FirstOk(x) < FirstOk(y))
-                    IN IF Cardinality(entries) # 1 \/ o.disp[first].out # "ok" \/ want \cap o.stopped # {} THEN {}
+                        \* (a forward that its target rejected for capacity is C14's business: the statement about reach and path assumes every
+                        \*  forward is accepted)
+                        fwdRejected == \E k \in DOMAIN o.disp : o.disp[k].e = e /\ o.disp[k].fw /\ o.disp[k].out # "ok"
+                    IN IF Cardinality(entries) # 1 \/ o.disp[first].out # "ok" \/ want \cap o.stopped # {} \/ fwdRejected THEN {}
                        ELSE (IF got # want THEN {W("C07.reach", e, b0, "", 0, "")} ELSE {})
                          \cup (IF o.snap[e].path # order THEN {W("C07.path", e, b0, "", 0, "")} ELSE {})
                          \cup {W("C07.results", e, r[1], r[3], 0, "") : r \in {k \in o.runs : k[2] = e /\ ResOf(o.snap[e], k[3], k[1]) = {}}}
